@@ -654,8 +654,21 @@ func c08Respawn(c *caseCtx, e *actor.Engine, res *caseResult) {
 			return false
 		}
 	}
+	var instStarted, instStopped int64
 	spawnKid := func(c *actor.Context) {
-		c.SpawnChildFunc(func(*actor.Context) { userPerturb() }, "kid", actor.WithID("k"))
+		c.SpawnChild(func() actor.Receiver {
+			return &funcRecv{f: func(c *actor.Context) {
+				switch c.Message().(type) {
+				case actor.Started:
+					atomic.AddInt64(&instStarted, 1)
+				case actor.Stopped:
+					time.Sleep(100 * time.Microsecond) // a Stopped handler that takes its time
+					atomic.AddInt64(&instStopped, 1)
+				default:
+					userPerturb()
+				}
+			}}
+		}, "kid", actor.WithID("k"))
 	}
 	kid := actor.NewPID("local", "rp/p/kid/k")
 	attempts := 40
@@ -667,8 +680,20 @@ func c08Respawn(c *caseCtx, e *actor.Engine, res *caseResult) {
 		// third party stops the child; as soon as the registry has let go of it the parent spawns it again
 		ctx := e.Poison(kid)
 		respawned := make(chan struct{})
+		eager := i%2 == 1
+		startedBefore := atomic.LoadInt64(&instStarted)
 		go func() {
 			defer close(respawned)
+			if eager {
+				// the parent keeps trying while the old instance is still stopping: refused as duplicates until
+				// the id is free, then one attempt goes through
+				for k := 0; k < 400 && atomic.LoadInt64(&instStarted) == startedBefore; k++ {
+					do(spawnKid)
+				}
+				if atomic.LoadInt64(&instStarted) != startedBefore {
+					return
+				}
+			}
 			waitFor(wd, func() bool { return e.Registry.GetPID("rp/p/kid", "k") == nil })
 			do(spawnKid)
 		}()
@@ -710,7 +735,15 @@ func c08Respawn(c *caseCtx, e *actor.Engine, res *caseResult) {
 			}
 		}
 	}
-	e.Poison(parent)
+	select {
+	case <-e.Poison(parent).Done():
+	case <-time.After(wd):
+		res.inconclusive("parent did not stop")
+		return
+	}
+	if st, sp := atomic.LoadInt64(&instStarted), atomic.LoadInt64(&instStopped); st != sp && res.Verdict != vViolated {
+		res.violate("the parent has stopped: %d instances of its child were started over time, %d handled Stopped (an instance outlived its parent, unregistered and unreachable)", st, sp)
+	}
 	res.Desc = "directed: third party stops a child while the parent respawns the same id"
 	res.Sig = sigHash("directed", 2, c.n%7)
 }
@@ -764,6 +797,7 @@ func (s *supActor) spawn(c *actor.Context) {
 }
 
 func (s *supActor) Receive(c *actor.Context) {
+	_ = c.Children() // a supervisor that looks at its children all the time
 	switch c.Message().(type) {
 	case actor.Started:
 		for i := 0; i < s.fan; i++ {
